@@ -228,8 +228,18 @@ def _selection_prologue(ctx, fn):
     out['operand_list'] = sorted(unparse(n.value) for n in od)
     res = resolver(ctx, fn, inline=False)
     conds = []
+    from engine.lin import facts_cnf
+    g = ctx.cfg(fn)
     for n in od:
-        conds.append((unparse(n.value), describe_facts(facts_at(ctx, fn, n, res))))
+        bf = g.branch_facts(g.node_of(n))
+        # a default that a later conditional assignment (an `if` without else) overrides holds exactly when that condition fails:
+        # `x = D; if c: x = V` and `if c: x = V else: x = D` are the same table
+        for m in od:
+            if m is not n and g.dominates(g.node_of(n), g.node_of(m)):
+                extra = [f for f in g.branch_facts(g.node_of(m)) if f[2] not in {b[2] for b in bf}]
+                if len(extra) == 1:
+                    bf = bf + [(extra[0][0], not extra[0][1], extra[0][2])]
+        conds.append((unparse(n.value), describe_facts(sorted(facts_cnf(bf, res), key=lambda c: sorted(map(repr, c))))))
     out['operand_list_conditions'] = sorted(conds)
     fm = [c for c in ast.walk(fn.node) if isinstance(c, ast.Call) and isinstance(c.func, ast.Attribute) and c.func.attr == 'find_matching_operands']
     out['find_call'] = [unparse(c) for c in fm]
